@@ -2,6 +2,7 @@
 import itertools
 import random
 from pyvc.driver import Extra
+from props import grammar_oracle as go
 
 ID = "C17"
 LEVEL = "exploration"
@@ -21,7 +22,7 @@ EXPLANATION = (
 TRUSTED = ["the independent extractor below"]
 ASSUMPTIONS = ["bounded: enumerated structures; whitespace randomised by VERIF_SEED"]
 
-NAMES = ["A", "Bc", "Z9", "take1", "t", "x_y"]
+NAMES = ["A", "Bc", "Z9", "take1", "t", "x_y", "take", "Take"]
 VARS = ["i", "j", "k", "m1"]
 
 
@@ -103,7 +104,7 @@ def einsum_structures(rnd, n):
             fs = []
             for _f in range(nf):
                 if rnd.random() < 0.2:
-                    fs.append(("var", rnd.choice(["a", "b2", "take_"])))
+                    fs.append(("var", rnd.choice(["a", "b2", "take_", "take"])))
                 else:
                     fs.append(("tensor", rnd.choice(NAMES), rnd.choice(acc_pool)))
             if rnd.random() < 0.3 and nf >= 1:
@@ -149,7 +150,51 @@ def check_einsums(rnd, n):
             fails.append({"name": "bounded/einsum-near-miss", "detail": "%r accepted" % s, "witness": {"text": s}})
         except Exception:      # noqa
             pass
+    # single-token mutations of the valid strings (each valid spelling was parsed just before its mutants): the real
+    # parser and the independent reader must agree on acceptance and on what was read
+    pool = ["take(", "take", "[", "]", ",", "*", "+", "-", "=", ")", "(", "2", "k", "A", " "]
+    cap = 40 if n > 1000 else 12
+    for s in sorted(distinct):
+        if len(fails) > 8:
+            break
+        for m in go.mutations(s, pool, rnd, cap):
+            want = go.read_einsum(m)
+            if want[0] == "unsure":
+                continue
+            ev += 1
+            got = go.real_einsum(m)
+            if want[0] == "reject" and got[0] != "reject":
+                fails.append({"name": "bounded/einsum-near-miss", "detail": "%r (outside the grammar) accepted as %r" % (m, got[1]),
+                              "witness": {"text": m, "after_parsing": s}})
+            elif want[0] == "ok" and (got[0] != "ok" or go.norm_coef(got[1]) != go.norm_coef(want[1])):
+                fails.append({"name": "bounded/einsum-roundtrip", "detail": "%r parsed to %r, written %r" % (m, got, want[1]),
+                              "witness": {"text": m, "parsed": repr(got), "written": repr(want[1])}})
     return ev, distinct, fails, samples
+
+
+def check_mutants(rnd, valid, reader, real, pool, name, cap):
+    """token mutations of valid strings of one of the small grammars"""
+    ev, fails = 0, []
+    for s in valid:
+        first = real(s)          # the valid spelling is parsed first: acceptance must not depend on history
+        for m in go.mutations(s, pool, rnd, cap):
+            want = reader(m)
+            if want[0] == "unsure":
+                continue
+            ev += 1
+            got = real(m)
+            if want[0] == "reject" and got[0] != "reject":
+                fails.append({"name": "bounded/%s-near-miss" % name, "detail": "%r (outside the grammar) accepted as %r after parsing %r"
+                              % (m, got[1], s), "witness": {"text": m, "after_parsing": s}})
+            elif want[0] == "ok" and got != want:
+                fails.append({"name": "bounded/%s-roundtrip" % name, "detail": "%r parsed to %r, written %r" % (m, got, want[1]),
+                              "witness": {"text": m}})
+            if len(fails) > 4:
+                return ev, fails
+        if real(s) != first:
+            fails.append({"name": "bounded/%s-roundtrip" % name, "detail": "%r parsed differently the second time" % s,
+                          "witness": {"text": s}})
+    return ev, fails
 
 
 def check_directives(rnd):
@@ -254,6 +299,20 @@ def check_directives(rnd):
             fails.append({"name": "bounded/level-near-miss", "detail": "%r accepted" % bad, "witness": {"text": bad}})
         except Exception:      # noqa
             pass
+    cap = 60
+    dpool = ["nway_shape(", "uniform_shape(", "uniform_occupancy(", "flatten(", "follow(", "(", ")", ".", "4", "K", "x1", " "]
+    valid_d = sorted(t for t in distinct if "(" in t and not t.lstrip().startswith("(") and "[" not in t)
+    e, f = check_mutants(rnd, valid_d, go.read_directive, go.real_directive, dpool, "directive", cap)
+    ev, fails = ev + e, fails + f
+    valid_r = sorted(t for t in distinct if (t.lstrip().startswith("(") or go.read_ranks(t)[0] == "ok") and "[" not in t and "." not in t)
+    e, f = check_mutants(rnd, valid_r, go.read_ranks, go.real_ranks, ["(", ")", ",", "K", "M0", " "], "ranks", cap)
+    ev, fails = ev + e, fails + f
+    valid_s = sorted(t for t in distinct if go.read_stamp(t)[0] == "ok")
+    e, f = check_mutants(rnd, valid_s, go.read_stamp, go.real_stamp, [".pos", ".coord", ".", "K", "pos", " "], "stamp", cap)
+    ev, fails = ev + e, fails + f
+    valid_l = sorted(t for t in distinct if go.read_level(t)[0] == "ok")
+    e, f = check_mutants(rnd, valid_l, go.read_level, go.real_level, ["[0..", "]", "[", "..", "0", "7", "PE", " "], "level", cap)
+    ev, fails = ev + e, fails + f
     return ev, distinct, fails
 
 
